@@ -223,7 +223,9 @@ pub fn check_all(h: &Hist, ledger: &Ledger, obs: &mut Obs) -> Vec<Viol> {
         for (t, si) in &sent {
             if is_ok_send(&ev[*si].res) {
                 if let Some((ri, pos)) = tk.get(t) {
-                    ds.push((ev[*si].t1, ev[*si].t0, ev[*ri].t0, ev[*ri].t1, *t, *ri, *pos));
+                    // "accepted": returned, or already seen blocked/pending inside the channel (whichever was first)
+                    let acc = ev[*si].reg_t.map_or(ev[*si].t1, |r| r.min(ev[*si].t1));
+                    ds.push((acc, ev[*si].t0, ev[*ri].t0, ev[*ri].t1, *t, *ri, *pos));
                 }
             }
         }
